@@ -1,6 +1,6 @@
 (* C09 — bootstrap samples are faithful with-replacement resamples of whole groups. *)
 From Coq Require Import List ZArith Bool Arith Permutation Sorted.
-From RSA Require Import ListLib RdmModel RdmProofs BootModel BootProofs.
+From RSA Require Import ListLib RdmModel RdmProofs BootModel BootProofs BootCountProofs.
 Import ListNotations.
 
 (* the map from a draw in [0,G) to a descriptor group is a bijection onto the distinct groups *)
@@ -55,3 +55,18 @@ Theorem C09_sample_entries : forall (A : Type) (zero : A) (src : Z -> Z -> Z -> 
   Inv zero src src_pats src_rdms (fst (fst (boot_both A zero rcol pcol rdraws pdraws s))).
 Proof. exact @boot_both_inv. Qed.
 Print Assumptions C09_sample_entries.
+
+(* "over many draws each group is selected equally often on average": summed over ALL G^L possible outcomes of L draws from
+   0..G-1, every group is drawn exactly L * G^(L-1) times; with as many draws as groups that is once per outcome on average.
+   (That NumPy's generator makes the outcomes equally likely is not provable here.) *)
+Theorem C09_every_outcome_listed : forall G L l, In l (all_draws G L) <-> length l = L /\ Forall (fun d => d < G) l.
+Proof. exact all_draws_spec. Qed.
+Print Assumptions C09_every_outcome_listed.
+
+Theorem C09_groups_drawn_equally_often : forall G L d, d < G -> total G L d = L * G ^ (L - 1).
+Proof. exact total_draws. Qed.
+Print Assumptions C09_groups_drawn_equally_often.
+
+Theorem C09_average_multiplicity_one : forall G d, 0 < G -> d < G -> total G G d = length (all_draws G G).
+Proof. exact average_multiplicity_one. Qed.
+Print Assumptions C09_average_multiplicity_one.
